@@ -568,6 +568,9 @@ CHOICE_decode_xer(const asn_codec_ctx_t *opt_codec_ctx,
 	ssize_t consumed_myself = 0;	/* Consumed bytes from ptr */
 	size_t edx;			/* Element index */
 
+	if(ASN__STACK_OVERFLOW_CHECK(opt_codec_ctx))
+		ASN__DECODE_FAILED;
+
 	/*
 	 * Create the target structure if it is not present already.
 	 */
